@@ -2,6 +2,7 @@
 C01: `SepSafe` for one-character separators, and non-vacuity / negation witnesses.
 -/
 import Proofs.C01
+import Proofs.C01Prune
 namespace Flatland.Flat.Proofs
 open Flatland.Flat Flatland.Flat.Spec
 
@@ -181,5 +182,39 @@ theorem ex2_sepSafe : SepSafe exEnv01 "_".toList (Tok exSchema2) := by
 
 example : fromFlat exEnv01 "_".toList exSchema2 (flatten exEnv01 "_".toList exSchema2 exElem2) = exElem2 :=
   roundtrip exEnv01 "_".toList exSchema2 exElem2 ex2_sepSafe exEnvOK (by decide) (by decide) (by decide) ex2_ok
+
+end Flatland.Flat.Proofs
+
+namespace Flatland.Flat.Proofs
+open Flatland.Flat Flatland.Flat.Spec
+
+/-! ### non-vacuity of `roundtrip_pruned`: a state on which pruning really happens -/
+
+/-- `List.named('l').of(String)` (pruning) holding `['', 'z', '']` -/
+def exElem3 : Elem := .list [.leaf "".toList, .leaf "z".toList, .leaf "".toList]
+
+theorem ex3_okP : OkP exEnv01 exSchema2 exElem3 := by
+  simp only [exSchema2, exElem3, OkP]
+  refine ⟨by decide, ?_, ?_⟩
+  · intro i hi
+    simp only [List.length_cons, List.length_nil] at hi
+    have : i = 0 ∨ i = 1 ∨ i = 2 := by omega
+    rcases this with rfl | rfl | rfl
+    · rw [natStr_lt 0 (by omega)]; decide
+    · rw [natStr_lt 1 (by omega)]; decide
+    · rw [natStr_lt 2 (by omega)]; decide
+  · intro e he
+    simp only [List.mem_cons, List.not_mem_nil, or_false] at he
+    rcases he with rfl | rfl | rfl <;> simp [OkP, exEnv01]
+
+theorem ex3_pr : pr exEnv01 false exSchema2 exElem3 = .list [.leaf "z".toList] := by
+  simp only [exSchema2, exElem3, pr, if_true, List.filter_cons, List.filter_nil, emitsB_leaf]
+  simp
+
+/-- the documented pruning, derived: the two empty members are dropped, the survivor renumbered -/
+example : fromFlat exEnv01 "_".toList exSchema2 (flatten exEnv01 "_".toList exSchema2 exElem3)
+    = .list [.leaf "z".toList] := by
+  rw [roundtrip_pruned exEnv01 "_".toList exSchema2 exElem3 ex2_sepSafe exEnvOK (by decide) (by decide)
+    (by decide) ex3_okP, ex3_pr]
 
 end Flatland.Flat.Proofs
